@@ -619,6 +619,34 @@ func checkC09(e *Engine, r *Report) {
 		}
 	}
 
+	// a released grant's cold-start timer is stopped: StopTimer calls Stop() on the timer it holds (a timer left running
+	// would later re-allocate memory for a container that is gone)
+	if fn := r.Anchor(pkgTA, "grant.StopTimer"); fn != nil {
+		fT := e.Field(pkgTA, "grant", "coldStartTimer")
+		set := func(cond ssa.Value) (bool, bool) {
+			b, ok := cond.(*ssa.BinOp)
+			if !ok || (b.Op != token.EQL && b.Op != token.NEQ) {
+				return false, false
+			}
+			for _, pr := range [][2]ssa.Value{{b.X, b.Y}, {b.Y, b.X}} {
+				if k, isK := pr[1].(*ssa.Const); isK && k.IsNil() && isFieldLoad(pr[0], fT) {
+					return true, b.Op == token.NEQ
+				}
+			}
+			return false, false
+		}
+		stops := func(in ssa.Instruction) bool {
+			ci, ok := in.(ssa.CallInstruction)
+			if !ok || callObj(ci.Common()) == nil || callObj(ci.Common()).Name() != "Stop" {
+				return false
+			}
+			a := callArgs(ci)
+			return len(a) >= 1 && isFieldLoad(a[0], fT)
+		}
+		p := FindPath(PathQuery{Fn: fn, Assume: set, Target: isRet, Block: stops})
+		r.Check("R1:ta-stoptimer-stops", "R1 release pairing", "grant.StopTimer stops the cold-start timer the grant holds", e.Pos(fn.Pos()), fn, p == nil && fT != nil, e.pathString(p), true)
+	}
+
 	// ------------------------------------------------------------------ R2 stopped never re-admitted
 	checkReadmission(e, r)
 
